@@ -312,6 +312,8 @@ func (ipcp *IPCPStateMachine) ReceivePacket(data []byte) error {
 		return ipcp.receiveTerminateRequest(pkt)
 	case LCPCodeTermAck:
 		return ipcp.receiveTerminateAck(pkt)
+	case LCPCodeCodeReject:
+		return ipcp.receiveCodeReject(pkt)
 	default:
 		// Unknown code - ignore
 		return nil
@@ -619,6 +621,20 @@ func (ipcp *IPCPStateMachine) receiveTerminateAck(pkt *LCPPacket) error {
 	case IPCPStateOpened:
 		ipcp.sendConfigureRequest()
 		ipcp.setState(IPCPStateReqSent)
+	}
+
+	return nil
+}
+
+// receiveCodeReject handles incoming Code-Reject (RFC 1661 section 4.3, RXJ-):
+// the peer refusing one of the Configure codes is catastrophic, the
+// negotiation is terminated like LCP does.
+func (ipcp *IPCPStateMachine) receiveCodeReject(pkt *LCPPacket) error {
+	if len(pkt.Data) > 0 {
+		rejectedCode := pkt.Data[0]
+		if rejectedCode >= LCPCodeConfigRequest && rejectedCode <= LCPCodeConfigReject {
+			ipcp.closeInternal("Critical code rejected")
+		}
 	}
 
 	return nil
